@@ -335,21 +335,39 @@ def run(ctx):
             and ast.unparse(c.args[0]) == "self." + const
     # the filter is whatever guards the names that are returned: the `if`s of a comprehension, or the test around an append
     filters = []
-    for n in ast.walk(gf.node):
-        if isinstance(n, (ast.ListComp, ast.GeneratorExp, ast.SetComp)):
-            cs = [c for g in n.generators for c in g.ifs]
-            if cs:
-                filters.append([x for c in cs for x in conjuncts(c)])
-        elif isinstance(n, ast.If) and any(isinstance(c, ast.Call) and isinstance(c.func, ast.Attribute) and c.func.attr == "append"
-                                           for b_ in n.body for c in ast.walk(b_)):
-            filters.append(conjuncts(n.test))
+    rets_gf = [n.value for n in own_walk(gf.node) if isinstance(n, ast.Return) and n.value is not None]
+    final_comps = [v for v in rets_gf if isinstance(v, (ast.ListComp, ast.GeneratorExp, ast.SetComp)) and any(g.ifs for g in v.generators)]
+    if final_comps and len(final_comps) == len([v for v in rets_gf if not (isinstance(v, (ast.List, ast.Tuple)) and not v.elts)]):
+        # every non-empty result is a filtered comprehension: that filter is the last word on what is returned, whatever
+        # intermediate lists were gathered (and pre-filtered for other reasons) before it
+        for v in final_comps:
+            filters.append([x for g in v.generators for c in g.ifs for x in conjuncts(c)])
+    else:
+        for n in ast.walk(gf.node):
+            if isinstance(n, (ast.ListComp, ast.GeneratorExp, ast.SetComp)):
+                cs = [c for g in n.generators for c in g.ifs]
+                if cs:
+                    filters.append([x for c in cs for x in conjuncts(c)])
+            elif isinstance(n, ast.If) and any(isinstance(c, ast.Call) and isinstance(c.func, ast.Attribute) and c.func.attr == "append"
+                                               for b_ in n.body for c in ast.walk(b_)):
+                filters.append(conjuncts(n.test))
     okf = bool(filters) and all(any(is_test(c, "startswith", "CACHE_FILE_PREFIX") for c in cj)
                                 and any(is_test(c, "endswith", "CACHE_FILE_POSTFIX") for c in cj) for cj in filters)
     ctx.expect(okf, "R18.3", "_get_cache_files[filter]",
                "adoption accepts a file only if it has the cache prefix AND the cache postfix (each test a conjunct of its own)", gf.loc())
     ini = p.get_method(FC, "_initialize_cache")
-    reg = [n for n in ast.walk(ini.node) if (isinstance(n, ast.For) and (dotted(n.iter) or "").endswith("._get_cache_files()"))
-           or (isinstance(n, ast.comprehension) and (dotted(n.iter) or "").endswith("._get_cache_files()"))]
+    listing_alias = name_bound_to_call(ini.node, "._get_cache_files")
+
+    def from_listing(e):
+        d_ = dotted(e) or ""
+        if d_.endswith("._get_cache_files()") or (isinstance(e, ast.Name) and e.id == listing_alias):
+            return True
+        return isinstance(e, ast.Call) and isinstance(e.func, ast.Name) and e.func.id in ("zip", "enumerate", "sorted", "list") and bool(e.args) \
+            and from_listing(e.args[0])
+    iters_ini = [n.iter for n in ast.walk(ini.node) if isinstance(n, (ast.For, ast.comprehension))]
+    reg = [it_ for it_ in iters_ini if from_listing(it_)]
+    if iters_ini and len(reg) != len(iters_ini):
+        reg = []        # some loop of the start-up registration runs over something other than the filtered listing
     other = [n for n in ast.walk(ini.node) if isinstance(n, ast.Call) and resolve_ext(p, ini, n) in ("os.listdir", "os.walk", "os.scandir", "glob.glob")]
     ctx.expect(bool(reg) and not other, "R18.3", "_initialize_cache[adoption source]",
                "entries adopted on start-up come only from the filtered listing", ini.loc())
